@@ -470,9 +470,13 @@ fn ev_rep(shape: &str, n: u64, item: &Value, tail: &Value) -> Value {
     let r = catch(|| {
         let mut a = Allocator::new();
         let it = build_tree(&mut a, item, false);
-        let mut acc = build_tree(&mut a, tail, false);
+        let mut acc = if shape == "dbl" { it } else { build_tree(&mut a, tail, false) };
         for _ in 0..n {
-            acc = if shape == "rlist" { a.new_pair(it, acc).unwrap() } else { a.new_pair(acc, it).unwrap() };
+            acc = match shape {
+                "rlist" => a.new_pair(it, acc).unwrap(),
+                "llist" => a.new_pair(acc, it).unwrap(),
+                _ => a.new_pair(acc, acc).unwrap(),
+            };
         }
         let o = node_to_bytes_limit(&a, acc, usize::MAX);
         let Ok(out) = o else {
@@ -1116,6 +1120,17 @@ fn main() {
                     // inputs TLC cannot hold: summaries
                     record_big(&mut out, &mut r, &caps, thorough);
                     let reps: &[u64] = if thorough { &[1000, 20000, 100000] } else { &[1000, 10000] };
+                    // shared sub-trees: k doublings of one item (a DAG of k pairs, 2^k leaves when expanded)
+                    for k in [3u64, 9, if thorough { 16 } else { 13 }] {
+                        let item = if r.chance(1, 2) { atom_json(&rand_atom_bytes(&mut r, 4)) } else { gen_small_tree(&mut r, 3) };
+                        out.emit(&ev_rep("dbl", k, &item, &atom_json(&[])));
+                    }
+                    // node_to_bytes is node_to_bytes_limit(2 000 000): atoms whose serialization is 1 999 999 .. 2 000 001 bytes
+                    for nn in [1_999_995u128, 1_999_996, 1_999_997] {
+                        if let Some(e) = ev_bigser(nn, 0, "node_to_bytes", &caps) {
+                            out.emit(&e);
+                        }
+                    }
                     for &k in reps {
                         for shape in ["rlist", "llist"] {
                             let item = if r.chance(1, 2) { atom_json(&rand_atom_bytes(&mut r, 4)) } else { gen_small_tree(&mut r, 3) };
